@@ -41,3 +41,16 @@ add("C11", "rapid-generated lexer specs without preconditions x texts; invariant
     "Generated-input search with a recording proxy between the real simplelexer and the compiled state machine; the recorded history is replayed over the input bytes: EOF only at the end with nothing pending, tokens = accepted stretches, every byte in a token, a discarded stretch or an ERROR stretch; rejection of the spec with a diagnostic is the only other accepted outcome.",
     "Trusts simplelexer's resync policy as the definition of an ERROR stretch.",
     "DESIGN.md §3 C11")
+HOOK_COMMITS.append("24fefa9")
+add("C10", "rapid-generated specs through the real generator; decoded tables vs. derivative automaton by exhaustive product exploration per spec (equivalence over all strings), parser tables vs. constructed automaton, encoder round-trip over generated row sets (hook)",
+    "Generated-input search in layer B: tables are read back from the generated file text by their documented format; lexer equivalence is decided per specification over all strings by exploring the product automaton (capped, skips counted); parser tables compared entry by entry; the row-compressing encoder is round-tripped on adversarial row sets through a verif-tagged hook.",
+    "Trusts the derivative automaton as the meaning of the rules and the documented row format; without the hook (untagged build) the encoder sub-check is skipped and counted.",
+    "DESIGN.md §3 C10")
+add("C15", "exhaustive enumeration over a small universe plus rapid-generated range lists and class expressions vs. interval-set semantics; emitted-table probes at every class boundary",
+    "Generated and exhaustive search on three levels: the range algebra (every list of <=3 ranges over 0..7, every pair of lists of <=2 over 0..5, random lists over the full code space; callbacks replayed), class expressions through the real front end, and boundary probes through automaton construction and the emitted table.",
+    "Trusts the interval-set reference (lib/lexm); surrogates excluded from inputs.",
+    "DESIGN.md §3 C15")
+add("C19", "rapid-generated multi-file specs with tokens/externals/modes/@emit; constants, _TokenToString, decoded lexer and parser tables vs. the declaration order known by construction",
+    "Generated-input search in layer B (real generator, generated text parsed with go/types and the table decoder) plus a compiled sample calling _TokenToString on every value in [-1,n+1].",
+    "Declaration order is known by construction of the rendered files; files are read in file-name order.",
+    "DESIGN.md §3 C19")
